@@ -67,6 +67,7 @@ type TB struct {
 	ufsOrd []string
 	defNames []string
 	defs   []string // raw SMT definitions (define-fun-rec, axioms as text) emitted in every query
+	tables map[int]string // constant-table array term id -> name of its defined lookup function
 	True   *Term
 	False  *Term
 }
@@ -504,9 +505,33 @@ func (tb *TB) BVSignExt(n int, a *Term) *Term {
 
 // ---- arrays ----
 
+// RegisterTable makes reads of the constant array arr at a symbolic index applications of a
+// defined function (an ite chain over the index): pure bit-vector reasoning instead of array theory.
+func (tb *TB) RegisterTable(arr *Term, name string, idxSort Sort, keys, vals []*Term, dflt *Term) {
+	if tb.tables == nil {
+		tb.tables = map[int]string{}
+	}
+	if _, ok := tb.tables[arr.id]; ok {
+		return
+	}
+	name = sanitize("tab$" + name)
+	var sb strings.Builder
+	fmt.Fprintf(&sb, "(define-fun %s ((i %s)) %s ", name, idxSort, arr.Sort.Elem())
+	for k := range vals {
+		fmt.Fprintf(&sb, "(ite (= i %s) %s ", tb.Show(keys[k]), tb.Show(vals[k]))
+	}
+	sb.WriteString(tb.Show(dflt))
+	sb.WriteString(strings.Repeat(")", len(vals)+1))
+	tb.AddDef(name, sb.String())
+	tb.tables[arr.id] = name
+}
+
 func (tb *TB) Select(a, i *Term) *Term {
 	if !a.Sort.IsArr() {
 		panic("select on non-array " + string(a.Sort) + " " + tb.Show(a))
+	}
+	if name, ok := tb.tables[a.id]; ok && i.ival == nil {
+		return tb.App(name, a.Sort.Elem(), i)
 	}
 	// read-over-write simplification
 	cur := a
